@@ -43,6 +43,9 @@ class EnumMetaType(EnumMeta, MetaType):
             if not isinstance(value, int):
                 # value is a parsable value
                 value = cls.type(value)
+            elif isinstance(value, _Enum) and not isinstance(value, cls):
+                # A member of another enum or flag is converted by its integer value
+                value = int(value)
 
             return super().__call__(value)
 
